@@ -184,8 +184,10 @@ def iter_stmts(fn):
 
 def operands_of_rvalue(rv):
     k = rv["k"]
-    if k in ("Use", "Repeat", "Cast", "UnaryOp", "WrapUnsafeBinder"):
-        return [rv.get("op") or rv.get("a")]
+    if k in ("Use", "Repeat", "Cast", "WrapUnsafeBinder"):
+        return [rv.get("op")]
+    if k == "UnaryOp":
+        return [rv.get("a")]
     if k == "BinaryOp":
         return [rv["a"], rv["b"]]
     if k == "Aggregate":
@@ -201,3 +203,91 @@ def places_read_by_rvalue(rv):
     if rv["k"] in ("Ref", "RawPtr", "Discriminant", "CopyForDeref"):
         out.append(rv["place"])
     return out
+
+
+# ---------------------------------------------------------------------------
+# call graph (crate-local nodes; std/deps callees are leaves)
+
+def callgraph(F):
+    g = {}
+    for path, fn in F.fns.items():
+        m = fn.get("mir")
+        out = set()
+        if m:
+            for b in m["blocks"]:
+                t = b["term"]
+                if t["k"] in ("Call", "TailCall"):
+                    c = callee(t)
+                    if c:
+                        out.add(c)
+                    # function items passed as arguments (e.g. `.map(Move::pgn_notation)`)
+                    for a in t.get("args", []):
+                        if a.get("k") == "const" and (a.get("c") or {}).get("fn"):
+                            out.add(a["c"]["fn"])
+                for s in b["stmts"]:
+                    if s["k"] == "Assign" and s["rv"]["k"] == "Aggregate" and s["rv"].get("ak") == "Closure":
+                        out.add(s["rv"]["closure"])
+                    if s["k"] == "Assign":
+                        for op in operands_of_rvalue(s["rv"]):
+                            if op and op.get("k") == "const" and (op.get("c") or {}).get("fn"):
+                                out.add(op["c"]["fn"])
+        g[path] = out
+    return g
+
+
+def reachable_fns(g, start):
+    seen, st = set(), [start]
+    while st:
+        f = st.pop()
+        if f in seen:
+            continue
+        seen.add(f)
+        for c in g.get(f, ()):
+            if c not in seen:
+                st.append(c)
+    return seen
+
+
+def callers_of(g, target):
+    return {f for f, cs in g.items() if target in cs}
+
+
+# ---------------------------------------------------------------------------
+# copy chains: which user variable / parameter does a temporary come from
+
+def copy_sources(fn):
+    """local -> (root local, projection-free?) following single `_t = copy/move _x` / `&mut (*_x)` / `&mut _x` defs."""
+    m = fn["mir"]
+    defs = {}
+    for b in m["blocks"]:
+        for s in b["stmts"]:
+            if s["k"] == "Assign" and not s["place"].get("p"):
+                defs.setdefault(s["place"]["l"], []).append(s["rv"])
+        t = b["term"]
+        if t["k"] == "Call" and t.get("dest") and not t["dest"].get("p"):
+            defs.setdefault(t["dest"]["l"], []).append({"k": "CallResult", "callee": callee(t), "args": t["args"]})
+    return defs
+
+
+def root_of(local, defs, depth=0):
+    """Follow unique copy/borrow definitions to a root local; returns (root local, list of steps)."""
+    steps = []
+    cur = local
+    while depth < 50:
+        depth += 1
+        ds = defs.get(cur)
+        if not ds or len(ds) != 1:
+            return cur, steps
+        rv = ds[0]
+        if rv["k"] == "Use" and rv["op"].get("k") in ("copy", "move"):
+            pl = rv["op"]["place"]
+        elif rv["k"] in ("Ref", "RawPtr", "CopyForDeref"):
+            pl = rv["place"]
+        else:
+            return cur, steps
+        proj = [p for p in (pl.get("p") or []) if p != "*"]
+        if proj:
+            steps.append(proj)
+            return pl["l"], steps
+        cur = pl["l"]
+    return cur, steps
